@@ -225,3 +225,61 @@ Section StrAgree.
     destruct (str_slice_agree (bytes_events s)) as [R|H]; [left; exact R|]. right. rewrite H. apply slice_stream_agree.
   Qed.
 End StrAgree.
+
+(* ---- the I/O error, unless the delivered prefix determines the outcome ---- *)
+Require Import IoFailProofs.
+Section IoBeforeDetermined.
+  Variable ro : parse_options.
+  Variable alpha : N -> bool.
+  Variable fast : bool.
+  Variable std_parse : N -> Z -> f64.
+
+  Lemma io_pesc_cases {A} e (x : pres A) : IoFailProofs.pesc e x -> x <> PErr (XErr EFuel) -> no_panic x -> x = PErr (XErr (EIo e)).
+  Proof.
+    destruct x as [a|[er|k]]; cbn [IoFailProofs.pesc]; intros H Hf Hp; try contradiction.
+    - destruct er as [c l cl|io|]; cbn [IoFailProofs.pesc] in H; try contradiction. subst io. reflexivity.
+    - exfalso. apply (Hp k). reflexivity.
+  Qed.
+
+  (* a stream that fails with e after delivering pre: from_reader reports that
+     I/O error, or it reports exactly what it reports on pre followed by
+     anything else - the delivered prefix determines the result *)
+  Theorem io_error_or_determined (pre post cont : list event) (e : N) :
+    from_trait ro alpha fast std_parse SrcIo (pre ++ EFail e :: post) = PErr (XErr (EIo e)) \/
+    from_trait ro alpha fast std_parse SrcIo (pre ++ cont) = from_trait ro alpha fast std_parse SrcIo (pre ++ EFail e :: post).
+  Proof.
+    set (i1 := pre ++ cont). set (i2 := pre ++ EFail e :: post).
+    set (fuel := Nat.max (fuel_for i1) (fuel_for i2)).
+    destruct (from_trait_fuel_irrelevant ro alpha fast std_parse fuel SrcIo i1 ltac:(unfold fuel; lia)) as [F1 _].
+    destruct (from_trait_fuel_irrelevant ro alpha fast std_parse fuel SrcIo i2 ltac:(unfold fuel; lia)) as [F2 _].
+    rewrite <- F1, <- F2.
+    pose proof (proj1 (total_from_trait ro alpha fast std_parse SrcIo i1)) as T1.
+    pose proof (proj1 (total_from_trait ro alpha fast std_parse SrcIo i2)) as T2.
+    pose proof (proj1 (from_trait_no_panic ro alpha fast std_parse SrcIo i2)) as P2.
+    rewrite <- F1 in T1. rewrite <- F2 in T2, P2.
+    unfold from_trait_fuel in *.
+    destruct (io_fail_values e post cont ro alpha fast std_parse fuel pre) as [E|[E|(E & _)]].
+    - left. apply io_pesc_cases; assumption.
+    - exfalso. exact (T1 E).
+    - right. exact E.
+  Qed.
+  Theorem io_error_or_determined_datum (pre post cont : list event) (e : N) :
+    datum_from_trait ro alpha fast std_parse SrcIo (pre ++ EFail e :: post) = PErr (XErr (EIo e)) \/
+    datum_from_trait ro alpha fast std_parse SrcIo (pre ++ cont) = datum_from_trait ro alpha fast std_parse SrcIo (pre ++ EFail e :: post).
+  Proof.
+    set (i1 := pre ++ cont). set (i2 := pre ++ EFail e :: post).
+    set (fuel := Nat.max (fuel_for i1) (fuel_for i2)).
+    destruct (from_trait_fuel_irrelevant ro alpha fast std_parse fuel SrcIo i1 ltac:(unfold fuel; lia)) as [_ F1].
+    destruct (from_trait_fuel_irrelevant ro alpha fast std_parse fuel SrcIo i2 ltac:(unfold fuel; lia)) as [_ F2].
+    rewrite <- F1, <- F2.
+    pose proof (proj2 (total_from_trait ro alpha fast std_parse SrcIo i1)) as T1.
+    pose proof (proj2 (total_from_trait ro alpha fast std_parse SrcIo i2)) as T2.
+    pose proof (proj2 (from_trait_no_panic ro alpha fast std_parse SrcIo i2)) as P2.
+    rewrite <- F1 in T1. rewrite <- F2 in T2, P2.
+    unfold datum_from_trait_fuel in *.
+    destruct (io_fail_datums e post cont ro alpha fast std_parse fuel pre) as [E|[E|(E & _)]].
+    - left. apply io_pesc_cases; assumption.
+    - exfalso. exact (T1 E).
+    - right. exact E.
+  Qed.
+End IoBeforeDetermined.
